@@ -573,6 +573,21 @@ func (s *GuardSet) Guard(lockType LockType) *RWMutexGuard {
 	}
 }
 
+// restore returns the first len(prevStates) guards named by lockTypes to the
+// states they had before they were locked. Used to undo a partially granted
+// multi-lock request.
+func (s *GuardSet) restore(lockTypes []LockType, prevStates []RWMutexState) {
+	for i, prevState := range prevStates {
+		guard := s.Guard(lockTypes[i])
+		switch prevState {
+		case RWMutexStateUnlocked:
+			guard.Unlock()
+		case RWMutexStateShared:
+			guard.TryRLock() // downgrade, cannot fail
+		}
+	}
+}
+
 // Unlock unlocks all the guards in reversed order that they are acquired by SQLite.
 func (s *GuardSet) Unlock() {
 	s.UnlockDatabase()
